@@ -25,7 +25,7 @@ def run(ctx, rep):
     rep.not_decided = 'the textual `#[typeshare` pre-filter against exotic attribute spellings such as `# [typeshare]` (an input-language question).'
     rep.trusted = ['syn', 'astq evaluator']
     T = emit.Types(ctx.astq)
-    pr.all_attrs_rule(ctx, rep, 'SA')
+    pr.all_attrs_rule(ctx, rep, 'SA', ('has_typeshare_annotation', 'is_skipped'), 2)
     s1(ctx, rep)
     s2(ctx, rep)
     s3(ctx, rep)
@@ -150,22 +150,62 @@ def s3(ctx, rep):
     sk = ctx.fn('is_skipped', file='parser.rs')
     site = {'file': sk['file'], 'line': sk['line']}
     rep.check(not sk['returns'], 'S3', 'is_skipped:no-early-exit', 'single exit', f"is_skipped returns early (line {sk['returns'][0]['line'] if sk['returns'] else 0}, under `{vt.show(next((fr['c'] for fr in (sk['returns'][0]['guard'] if sk['returns'] else []) if fr.get('k') == 'if'), None))[:60]}`): on that path the skip markers are never consulted", site)
-    t = sk['tail']
-    while isinstance(t, dict) and t.get('k') == 'var':
-        t = t['v']
-    ok = isinstance(t, dict) and t.get('k') == 'op' and t.get('op') == '||'
-    if ok:
-        sides = [x for x in t['args']]
-        neg = [x for x in sides if isinstance(vt.strip(x), dict) and vt.strip(x).get('k') == 'op' and vt.strip(x).get('op') == '!' and vt.strip(vt.strip(x)['args'][0]).get('f') == 'accept_target_os']
-        other = [x for x in sides if x not in neg]
-        ok = len(neg) == 1 and len(other) == 1
-        if ok:
-            a = vt.strip(vt.strip(neg[0])['args'][0])['args']
-            ok = [vt.show(vt.strip(x)) for x in a] == [p['name'] for p in sk['params']]
-            txt = json.dumps(other[0])
-            ok2 = '"SERDE"' in txt and '"TYPESHARE"' in txt and '"skip"' in txt and '"any"' in txt and 'Meta :: Path' in txt
-            rep.check(ok2, 'S3', 'is_skipped:skip-marker', 'bare `skip` under serde or typeshare', f"is_skipped no longer looks for the bare path `skip` under both #[serde(..)] and #[typeshare(..)]: {vt.show(other[0])[:140]}", site)
-    rep.check(ok, 'S3', 'is_skipped:truth-table', 'skip ∨ ¬accept_target_os(attrs, target_os)', f"is_skipped is `{vt.show(sk['tail'])[:160]}` — expected skip_marker || !accept_target_os(attrs, target_os)", site)
+    # C03 is about the skip markers; --target-os filtering is C13's business.  With accept_target_os ≡ true (no target
+    # list) is_skipped must reduce to "some attribute carries the bare `skip` path under serde or typeshare".
+    red = no_target(sk['tail'])
+    txt = json.dumps(red) if isinstance(red, dict) else ''
+    ok2 = '"SERDE"' in txt and '"TYPESHARE"' in txt and '"skip"' in txt and '"any"' in txt and 'Meta :: Path' in txt
+    rep.check(ok2, 'S3', 'is_skipped:skip-marker', 'bare `skip` under serde or typeshare', f"is_skipped no longer looks for the bare path `skip` under both #[serde(..)] and #[typeshare(..)]: {vt.show(red)[:140] if isinstance(red, dict) else red}", site)
+    extra = [c for c in calls_in(red) if c.get('f') not in ('iter', 'any', 'chain', 'get_meta_items', 'is_ident', 'filter', 'filter_map', 'flat_map', 'map', 'into_iter')]
+    ok = isinstance(red, dict) and not extra
+    rep.check(ok, 'S3', 'is_skipped:truth-table', 'without a target list: skipped ⇔ a skip marker is present', f"is_skipped (`{vt.show(sk['tail'])[:140]}`) does not reduce to the skip-marker test when no --target-os is given: residual `{vt.show(red)[:100] if isinstance(red, dict) else red}`{' uses ' + str(sorted({c.get('f') for c in extra})) if extra else ''}", site)
+
+
+def no_target(v):
+    """Partially evaluate a boolean value tree under accept_target_os(..) = true."""
+    while isinstance(v, dict) and v.get('k') == 'var':
+        v = v['v']
+    if not isinstance(v, dict):
+        return v
+    k = v.get('k')
+    if k == 'call' and v.get('f') == 'accept_target_os':
+        return True
+    if k == 'paren':
+        return no_target(v.get('v'))
+    if k == 'op' and v.get('op') == '!':
+        x = no_target(v['args'][0])
+        return (not x) if isinstance(x, bool) else dict(v, args=[x])
+    if k == 'op' and v.get('op') in ('||', '&&'):
+        xs = [no_target(x) for x in v['args']]
+        dom = v['op'] == '||'
+        if any(x is dom for x in xs):
+            return dom
+        rest = [x for x in xs if not isinstance(x, bool)]
+        if not rest:
+            return not dom
+        return rest[0] if len(rest) == 1 else dict(v, args=rest)
+    if k == 'call' and v.get('f') in ('any', 'all') and v.get('args') and isinstance(v['args'][0], dict) and v['args'][0].get('k') == 'closure':
+        body = no_target(v['args'][0].get('body'))
+        if isinstance(body, bool):
+            # any(|_| false) = false ; all(|_| true) = true ; the other two depend on emptiness
+            if (v['f'] == 'any' and body is False) or (v['f'] == 'all' and body is True):
+                return body
+            return v
+        return dict(v, args=[dict(v['args'][0], body=body)] + v['args'][1:])
+    return v
+
+
+def calls_in(v, out=None):
+    out = [] if out is None else out
+    if isinstance(v, dict):
+        if v.get('k') == 'call':
+            out.append(v)
+        for x in v.values():
+            calls_in(x, out)
+    elif isinstance(v, list):
+        for x in v:
+            calls_in(x, out)
+    return out
 
 
 def s4(ctx, rep):
